@@ -354,10 +354,10 @@ class Pervaporation:
                 * 1000
             )
             cooling_heat_1 = self.mixture.first_component.get_cooling_heat(
-                conditions.permeate_temperature, conditions.initial_feed_temperature
+                conditions.initial_feed_temperature, conditions.permeate_temperature
             )
             cooling_heat_2 = self.mixture.second_component.get_cooling_heat(
-                conditions.permeate_temperature, conditions.initial_feed_temperature
+                conditions.initial_feed_temperature, conditions.permeate_temperature
             )
 
         for step in range(len(time)):
@@ -1080,10 +1080,10 @@ class Pervaporation:
                 * 1000
             )
             cooling_heat_1 = self.mixture.first_component.get_cooling_heat(
-                conditions.permeate_temperature, conditions.initial_feed_temperature
+                conditions.initial_feed_temperature, conditions.permeate_temperature
             )
             cooling_heat_2 = self.mixture.second_component.get_cooling_heat(
-                conditions.permeate_temperature, conditions.initial_feed_temperature
+                conditions.initial_feed_temperature, conditions.permeate_temperature
             )
 
         for step in range(len(time)):
